@@ -6,7 +6,7 @@ from fractions import Fraction
 import numpy as np
 import z3
 
-from symx.core import Sym, SymBool, lift
+from symx.core import HarnessLimit, Sym, SymBool, lift, reraise_if_harness  # noqa: F401
 
 
 class Case:
